@@ -1587,3 +1587,93 @@ fire("c03-add-drops-self-when-other-sum", ["C03"], PR,
 silent("c03-silent-guard-spelling", ["C03"], PR,
        "        if is_zero(other):  # exponent zero\n            return 1",
        "        if not is_nonzero(other):  # exponent zero\n            return 1")
+
+# ---------------------------------------------------------------------------
+# C10
+# ---------------------------------------------------------------------------
+fire("c10-cos-sign", ["C10"], DIF,
+     "        return -make_f(\"sin\")(*pars)", "        return make_f(\"sin\")(*pars)",
+     "E/table/cos")
+fire("c10-tan-formula", ["C10"], DIF,
+     "        return make_f(\"tan\")(*pars)**2+1", "        return make_f(\"tan\")(*pars)**2-1",
+     "E/table/tan")
+fire("c10-tanh-formula", ["C10"], DIF,
+     "        return 1-make_f(\"tanh\")(*pars)**2", "        return 1+make_f(\"tanh\")(*pars)**2",
+     "E/table/tanh")
+fire("c10-log-inverted", ["C10"], DIF,
+     "        return primitives.quotient(1, pars[0])", "        return primitives.quotient(pars[0], 1)",
+     "E/table/log")
+fire("c10-sinh-is-sinh", ["C10"], DIF,
+     "    elif func == make_f(\"sinh\") and len(pars) == 1:\n        return make_f(\"cosh\")(*pars)",
+     "    elif func == make_f(\"sinh\") and len(pars) == 1:\n        return make_f(\"sinh\")(*pars)",
+     "E/table/sinh")
+fire("c10-fabs-ungated", ["C10"], DIF,
+     "        if allowed_nonsmoothness in [\"continuous\", \"discontinuous\"]:\n"
+     "            from pymbolic.functions import sign\n            return sign(*pars)\n"
+     "        else:\n            raise ValueError(\"fabs is not smooth\"\n"
+     "                             \", pass allowed_nonsmoothness='continuous' \"\n"
+     "                             \"to return sign\")",
+     "        from pymbolic.functions import sign\n        return sign(*pars)",
+     "P/table/fabs/gated")
+fire("c10-copysign-gate-too-wide", ["C10"], DIF,
+     "        if allowed_nonsmoothness == \"discontinuous\":\n            return 0",
+     "        if allowed_nonsmoothness in [\"continuous\", \"discontinuous\"]:\n            return 0",
+     "P/table/copysign/gated")
+fire("c10-unknown-function-zero", ["C10"], DIF,
+     "        raise RuntimeError(\"unrecognized function, cannot differentiate\")",
+     "        return 0",
+     "P/table/")
+fire("c10-quotient-sign", ["C10"], DIF,
+     "            return (df*g-dg*f)/g**2", "            return (df*g+dg*f)/g**2",
+     "E/map_quotient/general")
+fire("c10-quotient-df0-sign", ["C10"], DIF,
+     "            return -f*dg/g**2", "            return f*dg/g**2",
+     "E/map_quotient/df")
+fire("c10-quotient-denominator", ["C10"], DIF,
+     "            return (df*g-dg*f)/g**2", "            return (df*g-dg*f)/g",
+     "E/map_quotient/general")
+fire("c10-power-exponent", ["C10"], DIF,
+     "            return g * f**(g-1) * df\n        else:",
+     "            return g * f**g * df\n        else:",
+     "E/map_power/dg")
+fire("c10-power-missing-log-term", ["C10"], DIF,
+     "            return log(f) * f**g * dg + \\\n                    g * f**(g-1) * df",
+     "            return g * f**(g-1) * df",
+     "E/map_power/general")
+fire("c10-product-rule-misses-tail", ["C10"], DIF,
+     "                + [self.rec_undiff(ch, *args) for ch in expr.children[i+1:]]\n", "",
+     "E/map_product")
+fire("c10-sum-undifferentiated", ["C10"], DIF,
+     "                self.rec(child, *args) for child in expr.children)",
+     "                self.rec_undiff(child, *args) for child in expr.children)",
+     "E/map_sum")
+fire("c10-call-first-parameter-only", ["C10"], DIF,
+     "            for i, par in enumerate(expr.parameters)\n            )",
+     "            for i, par in enumerate(expr.parameters[:1])\n            )",
+     "E/map_call")
+fire("c10-if-ungated", ["C10"], DIF,
+     "        if self.allowed_nonsmoothness != \"discontinuous\":\n"
+     "            raise ValueError(\"cannot differentiate 'If' nodes unless \"\n"
+     "                    \"allowed_nonsmoothness is set to 'discontinuous'\")\n\n", "",
+     "P/map_if/gated")
+fire("c10-variable-inverted", ["C10"], DIF,
+     "        if expr == self.variable:\n            return 1\n        else:\n            return 0",
+     "        if expr == self.variable:\n            return 0\n        else:\n            return 1",
+     "E/map_variable")
+fire("c10-lookup-differentiated-as-variable", ["C10"], DIF,
+     "    map_subscript = map_variable\n", "    map_subscript = map_variable\n    map_lookup = map_variable\n",
+     "D4/DifferentiationMapper/Lookup")
+fire("c10-floordiv-as-quotient", ["C10"], DIF,
+     "    def map_power(self, expr, *args):\n        f = expr.base",
+     "    map_floor_div = map_quotient\n\n    def map_power(self, expr, *args):\n        f = expr.base",
+     "D4/DifferentiationMapper/FloorDiv")
+fire("c10-setting-not-validated", ["C10"], DIF,
+     "        if allowed_nonsmoothness not in [\"none\", \"continuous\", \"discontinuous\"]:\n"
+     "            raise ValueError(f\"allowed_nonsmoothness={allowed_nonsmoothness} \"\n"
+     "                    \"is not a valid option\")\n", "",
+     "P/__init__/setting-validated")
+silent("c10-silent-quotient-rearranged", ["C10"], DIF,
+       "            return (df*g-dg*f)/g**2", "            return (g*df-f*dg)/(g*g)")
+silent("c10-silent-power-rearranged", ["C10"], DIF,
+       "            return g * f**(g-1) * df\n        else:",
+       "            return df * (g * f**(g-1))\n        else:")
